@@ -578,6 +578,8 @@ pub fn worker_main(args: &Args, w: usize, n: usize) -> ! {
         let hi = total * (w as u64 + 1) / n as u64;
         let case_dir = scratch.path.join(format!("case-{ii}"));
         for h in lo..hi {
+            // every other history runs with seeded short reads on jubako's reader-side streams
+            hooks.set_short_reads(if h % 2 == 1 { 300 } else { 0 }, h);
             let mut rng = Rng::derive(args.seed, &format!("c12-history-{name}"), h);
             let ops = gen_history(&mut rng, n_listed, args.tier);
             let r = std::panic::catch_unwind(std::panic::AssertUnwindSafe(|| run_history(&case_dir, &img, &ops)));
